@@ -5,7 +5,7 @@
 (b) wiring: the -c branches of main.run (see c11 'run' configurations) hand exactly the accepted packets on."""
 
 VALIDATE = True
-SITES = ["no-exception", "verdict-equals-rfc1071"]
+SITES = ["no-exception", "verdict-equals-rfc1071", "wiring-accepted-packets-only"]
 MODELS = ["tlexport.packet.dpkt replaced by tlv/models/dpkt_model.py (spec parser, validated against real dpkt in the replay)",
           "frames: Ethernet II, IPv4 IHL=5 no fragments / IPv6 no extension headers, TCP data offset 5"]
 ASSUMPTIONS = ["a UDP checksum field of 0x0000 ('not computed' in IPv4, illegal in IPv6) is neither right nor wrong: excluded",
@@ -25,24 +25,130 @@ def configs(tier, seed):
         for proto in ("tcp", "udp"):
             for n in _lens(tier, proto):
                 out.append({"name": "leaf-ipv%d-%s-seg%d" % (ipv, proto, n), "harness": "leaf", "ipv": ipv, "proto": proto, "n": n})
+            # bytes after the IP datagram (Ethernet padding of short frames, a captured frame check sequence) are not part of the segment
+            for tr in ((4,) if tier == "quick" else (1, 4, 6)):
+                n = _lens(tier, proto)[1]
+                out.append({"name": "leaf-ipv%d-%s-seg%d-trailer%d" % (ipv, proto, n, tr), "harness": "leaf", "ipv": ipv, "proto": proto, "n": n, "trailer": tr})
+    for proto in ("tls", "quic"):
+        out.append({"name": "wiring-%s" % proto, "harness": "wiring", "proto": proto, "mode": "stub"})
     return out
 
 
 def bounds(tier):
     return {"segment lengths": {"tcp": _lens(tier, "tcp"), "udp": _lens(tier, "udp")},
             "symbolic": "IP addresses and every byte of the transport segment except the TCP data-offset nibble (5)",
-            "outside": "longer segments; IP options; IPv6 extension headers"}
+            "trailer": "4 (thorough: 1, 4, 6) arbitrary bytes after the IP datagram",
+            "wiring": "TLS 1.2 and QUIC connection through main.run -c with a damaged copy of any one packet just before it",
+            "outside": "longer segments; IP options; IPv6 extension headers; more than one damaged packet per capture"}
 
 
-def _build(cfg, src, dst, seg):
+def _build(cfg, src, dst, seg, trailer=None):
     from tlv.oracle import frames
     ipv6 = cfg["ipv"] == 6
     proto = 6 if cfg["proto"] == "tcp" else 17
-    return frames.ethernet(b"\x02\x00\x00\x00\x00\x02", b"\x02\x00\x00\x00\x00\x01", ipv6,
-                           frames.ip_header(ipv6, src, dst, proto, len(seg)) + seg)
+    fr = frames.ethernet(b"\x02\x00\x00\x00\x00\x02", b"\x02\x00\x00\x00\x00\x01", ipv6,
+                         frames.ip_header(ipv6, src, dst, proto, len(seg)) + seg)
+    return fr + trailer if trailer is not None and len(trailer) else fr
+
+
+def _run_wiring(cfg):
+    """main.run with -c: the verdict functions are replaced by a solver-chosen verdict per input packet (their correctness is the
+    leaf harness); the capture contains, at a solver-chosen position, a damaged copy of a packet ahead of the intact one (what a
+    retransmission after a bit error looks like).  The export must equal that of a run without -c on the packets with a good verdict."""
+    from tlv.sx.core import ctx, sym_choice
+    from tlv.harness import pipeline as P, c18, c02
+    from tlv.harness.common import explore_cfg
+    from tlv.oracle import scenario as SC, quic_scenario as QS
+    mods = P.setup_symbolic()
+    main = mods["tlexport.main"]
+
+    def scenario():
+        c = ctx()
+        ep = P.Endpoint(ipv=4)
+        if cfg["proto"] == "tls":
+            scfg = {"version": "TLS12", "suite": 0x009c, "suite_name": "TLS_RSA_WITH_AES_128_GCM_SHA256", "records": 2, "max_len": 1, "min_len": 1, "grouping": "one"}
+            items, keylog, meta = SC.build(scfg, SC.SymSrc())
+            frames = [(f[0], f[1]) for f in P.tcp_frames(ep, items)]
+        else:
+            qcfg = {"suite": 0x1301, "offered": [0x1301], "odcid_len": 8, "c_cid_len": 4, "s_cid_len": 8, "n_app": 2, "data_len": 1}
+            dgrams, keylog, meta = QS.build(qcfg, SC.SymSrc())
+            c02.assume_cids_prefix_free(c, meta)
+            c02.assume_no_accidental_cid(c, meta, dgrams)
+            frames = [(f[0], f[1]) for f in P.udp_frames(ep, dgrams)]
+        k = sym_choice("damaged_copy_of", list(range(len(frames))))
+        # the damaged copy travels just before the intact packet (same addresses, ports, sequence number and length; other content)
+        bad_ids = set()
+        dmg = (frames[k][0], frames[k][1] - 0.5)
+        seq = frames[:k] + [dmg] + frames[k:]
+        bad_pos = k
+        verdicts = {}
+
+        def verdict(packet):
+            return verdicts[id(packet.binary)] if id(packet.binary) in verdicts else True
+        # the damaged copy needs its own frame object so that the verdict can tell it from the intact one
+        from tlv.sx.symbytes import as_symbytes
+        from tlv.sx.symbytes import sym_bytes
+        from tlv.sx.core import sym_not
+        orig = as_symbytes(frames[k][0])
+        junk = sym_bytes("damage", 2)
+        c.assume(sym_not(junk == orig[len(orig) - 2:]))
+        dmg_frame = orig[:len(orig) - 2] + junk          # the last two payload bytes differ: processing it would change the export
+        seq[bad_pos] = (dmg_frame, dmg[1])
+        verdicts[id(dmg_frame)] = False
+        saved = (main.calculate_checksum_tcp, main.calculate_checksum_udp)
+        main.calculate_checksum_tcp = main.calculate_checksum_udp = verdict
+        try:
+            kl = P.keylog_objects(mods, keylog)
+            with_c, _, _ = P.run_program(mods, seq, kl, ["-c"])
+            with_c = c18._summ(with_c)
+            without, _, _ = P.run_program(mods, frames, kl, [])
+            without = c18._summ(without)
+        except Exception as e:
+            import traceback
+            c.fail("no-exception", "%s: %s %s" % (type(e).__name__, e, traceback.format_exc().splitlines()[-3:-1]))
+            return {"outcome": "exception"}
+        finally:
+            main.calculate_checksum_tcp, main.calculate_checksum_udp = saved
+        c.check(True, "no-exception")
+        c.check(c18._same(with_c, without) and len(without) >= 3, "wiring-accepted-packets-only",
+                "with -c and a damaged copy of packet %d: %d packets written, without -c on the intact packets: %d" % (k, len(with_c), len(without)))
+        return {"outcome": "same", "validate": False}
+    return explore_cfg(scenario, cfg, timeout_ms=60000, sample_paths=1)
+
+
+def _replay_wiring(cfg, inp):
+    """Real program: the concrete capture with a really damaged copy (one payload bit flipped, checksum left as it was) before packet k,
+    run with -c, against the intact capture without -c."""
+    from tlv import e2e
+    from tlv.harness import pipeline as P
+    from tlv.oracle import scenario as SC, quic_scenario as QS
+    ep = P.Endpoint(ipv=4)
+    if cfg["proto"] == "tls":
+        scfg = {"version": "TLS12", "suite": 0x009c, "suite_name": "TLS_RSA_WITH_AES_128_GCM_SHA256", "records": 2, "max_len": 1, "min_len": 1, "grouping": "one"}
+        items, keylog, meta = SC.build(scfg, SC.ConcreteSrc(inp))
+        pk = e2e.concrete_frames(ep, items)
+    else:
+        qcfg = {"suite": 0x1301, "offered": [0x1301], "odcid_len": 8, "c_cid_len": 4, "s_cid_len": 8, "n_app": 2, "data_len": 1}
+        dgrams, keylog, meta = QS.build(qcfg, SC.ConcreteSrc(inp))
+        pk = e2e.concrete_udp_frames(ep, dgrams)
+    k = inp.get("damaged_copy_of", 0)
+    fr, ts = pk[k]
+    bad = fr[:-1] + bytes([fr[-1] ^ 0x10])
+    seq = pk[:k] + [(bad, ts - 1)] + pk[k:]
+    kt = e2e.keylog_text(keylog)
+    a = e2e.run_tlexport(seq, kt, args=["-c"])
+    b = e2e.run_tlexport(pk, kt)
+    problems = list(a["problems"][:2]) + list(b["problems"][:2])
+    fa = [(d.get("l4"), d.get("sport"), d.get("payload")) for d in a["frames"]]
+    fb = [(d.get("l4"), d.get("sport"), d.get("payload")) for d in b["frames"]]
+    if not problems and fa != fb:
+        problems.append("with -c and a damaged copy of packet %d: %d packets exported, %d from the intact capture without -c" % (k, len(fa), len(fb)))
+    return {"reproduced": bool(problems), "problems": problems}
 
 
 def run_config(cfg):
+    if cfg["harness"] == "wiring":
+        return _run_wiring(cfg)
     from tlv.sx import core, shims
     from tlv.sx.core import ctx, sym_not, sym_and, sym_or
     from tlv.sx.symbytes import sym_bytes, mixed_bytes
@@ -69,7 +175,7 @@ def run_config(cfg):
             proto = 17
             field = seg[6:8]
             ctx().assume(sym_not(field == b"\x00\x00"))
-        frame = _build(cfg, src, dst, seg)
+        frame = _build(cfg, src, dst, seg, sym_bytes("trailer", cfg["trailer"]) if cfg.get("trailer") else None)
         pkt = tp.Packet(frame, 1.0)
         c = ctx()
         if cfg["proto"] == "tcp":
@@ -97,7 +203,7 @@ def _concrete(cfg, inp):
     from tlv.oracle import frames
     from tlv.models import dpkt_model
     src, dst, seg = (bytes.fromhex(inp[k]) for k in ("src", "dst", "seg"))
-    frame = _build(cfg, src, dst, seg)
+    frame = _build(cfg, src, dst, seg, bytes.fromhex(inp.get("trailer", "")))
     pkt = tp.Packet(frame, 1.0)
     ipv6 = cfg["ipv"] == 6
     proto = 6 if cfg["proto"] == "tcp" else 17
@@ -117,10 +223,14 @@ def _concrete(cfg, inp):
 
 
 def replay(cfg, viol):
+    if cfg["harness"] == "wiring":
+        return _replay_wiring(cfg, viol["inputs"])
     r = _concrete(cfg, viol["inputs"])
     return {"reproduced": not r["ok"] and r["model_ok"], **r}
 
 
 def validate(cfg, sample):
+    if cfg["harness"] == "wiring":
+        return {"agree": True}
     r = _concrete(cfg, sample["inputs"])
     return {"agree": r["ok"], **r}
